@@ -18,6 +18,8 @@ CONSTANTS Actors,       \* set of actor ids (strings)
           EnvOps,       \* [Actors -> SUBSET {"stop","kill","drain","abort","selfkill","selfstop"}]
           KillCarriesState, \* TRUE: model the code as it is (kill in the loop reports the state)
           Once,         \* TRUE: kill/stop/drain are issued at most once per actor (bounds the model)
+          Local,        \* subset of Actors that are thread-local actors (ractor/src/thread_local/inner.rs):
+                        \* linked before pre_start, pre_start on the spawner's thread, no state in events
           MonPairs,     \* set of <<monitor, target>> pairs the environment may establish (monitors feature)
           Undecodable   \* message numbers whose payload does not decode (cluster builds; C19)
 
@@ -116,7 +118,7 @@ EnvDrain(a) == "drain" \in EnvOps[a] /\ Drain(a)
 \* JoinHandle::abort on the task that currently runs the actor (spawner helper or loop task)
 EnvAbort(a) ==
   /\ "abort" \in EnvOps[a] /\ Alive(a) /\ ac[a].abortReq = "none"
-  /\ Set(a, [ac[a] EXCEPT !.abortReq = IF ac[a].pc \in {"new", "pre"} THEN "spawner" ELSE "loop"])
+  /\ Set(a, [ac[a] EXCEPT !.abortReq = IF ac[a].pc \in {"new", "lnew", "pre"} THEN "spawner" ELSE "loop"])
   /\ UNCHANGED <<nsent, ninj>>
 
 -----------------------------------------------------------------------------
@@ -152,7 +154,7 @@ Cleanup(a) ==
 
 \* event classes (C04)
 EvtFailed(a, txt) == Evt("failed", a, FALSE, txt)
-EvtTerm(a, hs, reason) == Evt("terminated", a, hs, reason)
+EvtTerm(a, hs, reason) == Evt("terminated", a, hs /\ a \notin Local, reason)
 
 -----------------------------------------------------------------------------
 (* Start-up: ActorRuntime::spawn / spawn_linked / *_instant, start() *)
@@ -179,9 +181,19 @@ Step(a, r) == Set(a, r) /\ UNCHANGED <<nsent, ninj>>
 Ready(a) == ac[a].abortReq = "none"
 NoSig(a) == ac[a].sig # "sent"
 
-\* start(): Unstarted check, Starting, pre_start entered (first poll of start())
+\* start(): Unstarted check, Starting, pre_start entered (first poll of start()).
+\* Thread-local actors: start() links synchronously first (LocalStart), the builder that runs
+\* pre_start is then shipped to the spawner's thread (pc "lnew" until it is first polled).
+LinkOk(a) == LET s == SupOf[a] IN s = NoA \/ (ac[a].st < Draining /\ ac[s].st < Draining /\ ~ac[s].closed)
+LocalStart(a) ==
+  /\ a \in Local /\ ac[a].pc = "new" /\ Ready(a) /\ ac[a].st = Unstarted /\ LinkOk(a)
+  /\ Step(a, [ac[a] EXCEPT !.pc = "lnew", !.st = Max(@, Starting), !.par = SupOf[a]])
+LocalStartRefused(a) ==
+  /\ a \in Local /\ ac[a].pc = "new" /\ Ready(a) /\ ac[a].st = Unstarted /\ ~LinkOk(a)
+  /\ Step(a, Exiting([ac[a] EXCEPT !.st = Max(@, Starting)], "startfail", "link_refused", NoEvt))
 StartBegin(a) ==
-  /\ ac[a].pc = "new" /\ Ready(a) /\ ac[a].st = Unstarted /\ NoSig(a)
+  /\ Ready(a) /\ NoSig(a)
+  /\ IF a \in Local THEN ac[a].pc = "lnew" ELSE ac[a].pc = "new" /\ ac[a].st = Unstarted
   /\ Step(a, Entered([ac[a] EXCEPT !.pc = "pre", !.st = Max(@, Starting)], "pre_start"))
 \* start() on a cell that is no longer Unstarted (drained through its instant-spawn reference)
 StartRefused(a) ==
@@ -206,7 +218,7 @@ SigHandled(a) ==
   /\ ac[a].sig = "sent" /\ Ready(a)
   /\ LET pc == ac[a].pc
          susp == ac[a].cb.susp
-         inStart == (pc = "new" /\ ac[a].st = Unstarted) \/ (pc = "pre" /\ susp)
+         inStart == (pc = "new" /\ ac[a].st = Unstarted /\ a \notin Local) \/ pc = "lnew" \/ (pc = "pre" /\ susp)
          noState == pc \in {"spawned", "stopping"} \/ (pc \in {"post", "poststop"} /\ susp)
          inLoop == pc \in {"idle", "gotMsg", "gotSup"} \/ (pc \in {"msg", "sup"} /\ susp)
          r == [ac[a] EXCEPT !.sig = "taken"]
@@ -218,8 +230,8 @@ SigHandled(a) ==
 \* pre_start returned: Ok => link, mark_running, spawn the loop task (same poll); Err/panic => fail
 PreEnd(a, o) ==
   /\ ac[a].pc = "pre" /\ ac[a].cb.k = "pre_start" /\ ~ac[a].cb.susp /\ o \in Outcomes
-  /\ LET s == SupOf[a]
-         linkOk == s = NoA \/ (ac[a].st < Draining /\ ac[s].st < Draining /\ ~ac[s].closed)
+  /\ LET s == IF a \in Local THEN ac[a].par ELSE SupOf[a]
+         linkOk == a \in Local \/ LinkOk(a)
      IN IF o = "ok" /\ linkOk
           THEN Step(a, [ac[a] EXCEPT !.cb = NoCb, !.pc = "spawned", !.par = s, !.notify = TRUE, !.spawnRes = "ok", !.abortReq = "none"])
           ELSE Step(a, Exiting(ac[a], "startfail", IF o = "ok" THEN "link_refused" ELSE o, NoEvt))
@@ -279,12 +291,12 @@ PostStopEnd(a, o) ==
 \* the task's future is dropped at a step boundary (suspended callback, not yet polled, or idle)
 AbortDrop(a) ==
   /\ ac[a].abortReq # "none" /\ Alive(a)
-  /\ (ac[a].cb.susp \/ ac[a].pc \in {"new", "spawned", "idle"})
+  /\ (ac[a].cb.susp \/ ac[a].pc \in {"new", "lnew", "spawned", "idle"})
   /\ Step(a, Exiting(ac[a], "abort", "actor_task_cancelled",
                      IF ac[a].notify THEN EvtTerm(a, FALSE, "actor_task_cancelled") ELSE NoEvt))
 
 ActorStep(a) ==
-  \/ SpawnCall(a) \/ StartBegin(a) \/ StartRefused(a) \/ Yield(a) \/ Resume(a) \/ SelfKill(a) \/ SelfStop(a)
+  \/ SpawnCall(a) \/ LocalStart(a) \/ LocalStartRefused(a) \/ StartBegin(a) \/ StartRefused(a) \/ Yield(a) \/ Resume(a) \/ SelfKill(a) \/ SelfStop(a)
   \/ SigHandled(a) \/ PostStartBegin(a) \/ ListenStop(a) \/ TakeSup(a) \/ TakeMsg(a) \/ TakeDrain(a)
   \/ EnterSup(a) \/ EnterMsg(a) \/ DropUndecodable(a) \/ PostStopBegin(a) \/ AbortDrop(a) \/ Cleanup(a)
   \/ \E o \in Outcomes : PreEnd(a, o) \/ PostStartEnd(a, o) \/ HandlerEnd(a, o) \/ PostStopEnd(a, o)
@@ -300,7 +312,7 @@ Spec == Init /\ [][Next]_vars
 \* the enabling condition of Enter (cb = NoCb) plus NoOverlap below
 OrderOk == \A a \in Actors : ~ac[a].badOrder
 PostStopOnlyGraceful == \A a \in Actors : ac[a].pc = "poststop" => ac[a].exitK \in {"stop", "drain"}
-NoOverlap == \A a \in Actors : ac[a].pc \in {"idle", "spawned", "stopping", "dead", "new", "none", "gotMsg", "gotSup", "exiting"} => ac[a].cb = NoCb
+NoOverlap == \A a \in Actors : ac[a].pc \in {"idle", "spawned", "stopping", "dead", "new", "lnew", "none", "gotMsg", "gotSup", "exiting"} => ac[a].cb = NoCb
 
 \* C03: nothing starts after kill() returned; no message or supervision event is picked after
 \* stop() returned (an item picked before the stop was requested may still start: the dequeue and
